@@ -146,39 +146,107 @@ theorem simplePlan_loop {g : PMap} {gen : Key → Key} {todoS order : List Key} 
     cases hi; cases hj
     exact ⟨sk, by simpa using hl⟩
 
-/-- walking the plan in order with the new ids seen so far -/
-def PlanClosed (g : PMap) (onto : Key) : List Key → Plan → Prop
+/-- walking the plan in order with the new ids seen so far: every new parent is the new base, the new id of an
+entry seen earlier, or an old revision `p` allowed by `W entry p` -/
+def PlanClosedW (onto : Key) (W : Entry → Key → Prop) : List Key → Plan → Prop
   | _, [] => True
   | news, e :: rest =>
-    (∀ p ∈ e.parents, p = onto ∨ p ∈ news ∨ parentsOf g p = none) ∧
-      PlanClosed g onto (news ++ [e.new]) rest
+    (∀ p ∈ e.parents, p = onto ∨ p ∈ news ∨ W e p) ∧ PlanClosedW onto W (news ++ [e.new]) rest
 
-theorem planClosed_append (g : PMap) (onto : Key) : ∀ (plan : Plan) (news : List Key) (e : Entry),
-    PlanClosed g onto news plan →
-    (∀ p ∈ e.parents, p = onto ∨ p ∈ news ++ plan.map (·.new) ∨ parentsOf g p = none) →
-    PlanClosed g onto news (plan ++ [e]) := by
+/-- … or a GHOST PARENT OF THE OLD REVISION (which cannot be rewritten) -/
+def PlanClosed (g : PMap) (onto : Key) : List Key → Plan → Prop :=
+  PlanClosedW onto (fun e p => p ∈ parentsL g e.old ∧ parentsOf g p = none)
+
+/-- … or a parent of the old revision that lies outside `slice`, the revisions asked to be rewritten, and is not
+merged into the new base -/
+def PlanClosedS (g : PMap) (onto : Key) (slice : List Key) : List Key → Plan → Prop :=
+  PlanClosedW onto (fun e p => p ∈ parentsL g e.old ∧ p ∉ slice ∧ mergedInto g p onto = false)
+
+theorem planClosedW_append (onto : Key) (W : Entry → Key → Prop) : ∀ (plan : Plan) (news : List Key) (e : Entry),
+    PlanClosedW onto W news plan →
+    (∀ p ∈ e.parents, p = onto ∨ p ∈ news ++ plan.map (·.new) ∨ W e p) →
+    PlanClosedW onto W news (plan ++ [e]) := by
   intro plan
   induction plan with
-  | nil => intro news e _ h; simpa [PlanClosed] using h
+  | nil => intro news e _ h; simpa [PlanClosedW] using h
   | cons x plan ih =>
     intro news e hc h
-    simp only [List.cons_append, PlanClosed] at hc ⊢
+    simp only [List.cons_append, PlanClosedW] at hc ⊢
     refine ⟨hc.1, ih _ e hc.2 ?_⟩
     simpa [List.append_assoc] using h
+
+theorem planClosedW_mono (onto : Key) (W W' : Entry → Key → Prop) : ∀ (plan : Plan) (news : List Key),
+    (∀ e ∈ plan, ∀ p, W e p → W' e p) → PlanClosedW onto W news plan → PlanClosedW onto W' news plan := by
+  intro plan
+  induction plan with
+  | nil => intro _ _ _; trivial
+  | cons x plan ih =>
+    intro news hw hc
+    simp only [PlanClosedW] at hc ⊢
+    refine ⟨fun p hp => ?_, ih _ (fun e he => hw e (List.mem_cons_of_mem _ he)) hc.2⟩
+    rcases hc.1 p hp with h | h | h
+    · exact Or.inl h
+    · exact Or.inr (Or.inl h)
+    · exact Or.inr (Or.inr (hw x (by simp) p h))
 
 /-- no revision's parent appears at or after it (`topo_sort` output) -/
 def topoFrom (g : PMap) : List Key → Bool
   | [] => true
   | old :: rest => (parentsL g old).all (fun p => p != old && !(rest.contains p)) && topoFrom g rest
 
-theorem planLoop_closed (g : PMap) (gen : Key → Key) (tip onto : Key) (skip : Bool) :
+theorem topoFrom_cons {g : PMap} {old : Key} {rest : List Key} (h : topoFrom g (old :: rest) = true) :
+    (∀ p ∈ parentsL g old, p ≠ old ∧ p ∉ rest) ∧ topoFrom g rest = true := by
+  simpa only [topoFrom, Bool.and_eq_true, List.all_eq_true, bne_iff_ne, Bool.not_eq_true',
+    List.contains_eq_mem, decide_eq_false_iff_not] using h
+
+/-- a parent never appears at or after its child -/
+theorem topoFrom_split {g : PMap} : ∀ (l1 : List Key) (c : Key) (l2 : List Key), topoFrom g (l1 ++ c :: l2) = true →
+    ∀ p ∈ parentsL g c, p ∉ c :: l2 := by
+  intro l1
+  induction l1 with
+  | nil =>
+    intro c l2 h p hp
+    have := (topoFrom_cons h).1 p hp
+    simp only [List.mem_cons, not_or]
+    exact this
+  | cons x l1 ih => intro c l2 h; exact ih c l2 (topoFrom_cons h).2
+
+theorem topoFrom_suffix {g : PMap} : ∀ (l1 l2 : List Key), topoFrom g (l1 ++ l2) = true → topoFrom g l2 = true := by
+  intro l1
+  induction l1 with
+  | nil => intro l2 h; exact h
+  | cons x l1 ih => intro l2 h; exact ih l2 (topoFrom_cons h).2
+
+theorem topoFrom_prefix {g : PMap} : ∀ (l1 l2 : List Key), topoFrom g (l1 ++ l2) = true → topoFrom g l1 = true := by
+  intro l1
+  induction l1 with
+  | nil => intro _ _; rfl
+  | cons x l1 ih =>
+    intro l2 h
+    have h' := topoFrom_cons (rest := l1 ++ l2) h
+    simp only [topoFrom, Bool.and_eq_true, List.all_eq_true, bne_iff_ne, Bool.not_eq_true',
+      List.contains_eq_mem, decide_eq_false_iff_not]
+    refine ⟨fun p hp => ⟨(h'.1 p hp).1, fun hm => (h'.1 p hp).2 (List.mem_append_left _ hm)⟩, ih l2 h'.2⟩
+
+theorem topoFrom_slice {g : PMap} (order : List Key) (i n : Nat) (h : topoFrom g order = true) :
+    topoFrom g ((order.drop i).take n) = true := by
+  have h1 : topoFrom g (order.drop i) = true := by
+    have := List.take_append_drop i order
+    exact topoFrom_suffix (order.take i) (order.drop i) (by rw [this]; exact h)
+  have := List.take_append_drop n (order.drop i)
+  exact topoFrom_prefix _ ((order.drop i).drop n) (by rw [this]; exact h1)
+
+/-- the general closure invariant of the plan loop, for ANY list of revisions in topological order (any start / stop):
+a new parent that is neither the new base nor an earlier new id is a parent of the old revision that is outside the
+list and not merged into the new base -/
+theorem planLoop_closedS (g : PMap) (gen : Key → Key) (onto : Key) (skip : Bool) (all : List Key) :
     ∀ (todo done : List Key) (st st' : Plan × Skipped),
-      (∀ k, k ∈ done ++ todo ↔ (k ∈ todoSet g tip onto ∧ present g k = true)) →
+      all = done ++ todo →
       topoFrom g todo = true →
       (∀ k ∈ done, k ∈ st.1.map (·.old) ∨ k ∈ st.2.map (·.1)) →
       (∀ kv ∈ st.2, kv.2 = onto ∨ ∃ e ∈ st.1, e.new = kv.2) →
-      PlanClosed g onto [] st.1 →
-      planLoop g gen onto skip st todo = .ok st' → PlanClosed g onto [] st'.1 := by
+      PlanClosedS g onto all [] st.1 →
+      planLoop g gen onto skip st todo = .ok st' → PlanClosedS g onto all [] st'.1 := by
   intro todo
   induction todo with
   | nil =>
@@ -187,18 +255,13 @@ theorem planLoop_closed (g : PMap) (gen : Key → Key) (tip onto : Key) (skip : 
     cases h
     exact hc
   | cons old todo ih =>
-    intro done st st' hmem htopo hdone hsk hc h
+    intro done st st' hall htopo hdone hsk hc h
     simp only [planLoop] at h
     split at h
     · cases h
     · rename_i st1 hstep
       obtain ⟨p0, rest, hps, hcase⟩ := planStep_cases hstep
-      simp only [topoFrom, Bool.and_eq_true, List.all_eq_true, bne_iff_ne, Bool.not_eq_true',
-        List.contains_eq_mem, decide_eq_false_iff_not] at htopo
-      have hold : old ∈ todoSet g tip onto := ((hmem old).mp (by simp)).1
-      have holdA : old ∈ anc g tip := by
-        unfold todoSet at hold
-        exact (List.mem_filter.mp hold).1
+      have htopo' := topoFrom_cons htopo
       have hsrc := newParents_src g onto st.1 st.2 p0 rest
       -- a stand-in is the new base or a new id already in the plan
       have res1 : ∀ x, Src1 onto st.1 st.2 x → x = onto ∨ ∃ e ∈ st.1, e.new = x := by
@@ -213,7 +276,7 @@ theorem planLoop_closed (g : PMap) (gen : Key → Key) (tip onto : Key) (skip : 
       · -- skipped merge: recorded with its stand-in
         subst hst
         apply ih (done ++ [old]) (st.1, st.2 ++ [(old, (newParents g onto st.1 st.2 p0 rest).1)]) st'
-          (by simpa [List.append_assoc] using hmem) htopo.2 _ _ hc h
+          (by simpa [List.append_assoc] using hall) htopo'.2 _ _ hc h
         · intro k hk
           rcases List.mem_append.mp hk with hk | hk
           · rcases hdone k hk with h1 | h1
@@ -232,7 +295,7 @@ theorem planLoop_closed (g : PMap) (gen : Key → Key) (tip onto : Key) (skip : 
         subst hst
         apply ih (done ++ [old]) (st.1 ++ [⟨old, gen old, (newParents g onto st.1 st.2 p0 rest).1 ::
           (newParents g onto st.1 st.2 p0 rest).2⟩], st.2) st'
-          (by simpa [List.append_assoc] using hmem) htopo.2 _ _ _ h
+          (by simpa [List.append_assoc] using hall) htopo'.2 _ _ _ h
         · intro k hk
           rcases List.mem_append.mp hk with hk | hk
           · rcases hdone k hk with h1 | h1
@@ -245,7 +308,7 @@ theorem planLoop_closed (g : PMap) (gen : Key → Key) (tip onto : Key) (skip : 
           rcases hsk kv hkv with h1 | ⟨e, he, h1⟩
           · exact Or.inl h1
           · exact Or.inr ⟨e, List.mem_append_left _ he, h1⟩
-        · apply planClosed_append g onto st.1 [] _ hc
+        · apply planClosedW_append onto _ st.1 [] _ hc
           intro p hp
           have toNews : (∃ e ∈ st.1, e.new = p) → p ∈ [] ++ st.1.map (·.new) := by
             rintro ⟨e, he, h1⟩
@@ -261,28 +324,20 @@ theorem planLoop_closed (g : PMap) (gen : Key → Key) (tip onto : Key) (skip : 
             · rcases res1 p (Or.inr (Or.inr h1)) with h5 | h5
               · exact Or.inl h5
               · exact Or.inr (Or.inl (toNews h5))
-            · -- an old parent kept: not merged into onto, neither rewritten nor skipped ⇒ a ghost
+            · -- an old parent kept: not merged into onto, neither rewritten nor skipped ⇒ outside the list
               right; right
-              have hpA : p ∈ anc g tip := anc_parent holdA hps h1
-              have hnm : p ∉ anc g onto := by
-                intro hm
-                unfold mergedInto at h2
-                simp [hm] at h2
-              cases hpp : parentsOf g p with
-              | none => rfl
-              | some pps =>
-                exfalso
-                have hin : p ∈ done ++ old :: todo := (hmem p).mpr
-                  ⟨by unfold todoSet; simp [List.mem_filter, hpA, hnm], present_iff.mpr ⟨pps, hpp⟩⟩
-                have hpl : p ∈ parentsL g old := mem_parentsL.mpr ⟨_, hps, h1⟩
-                have := htopo.1 p hpl
-                rcases List.mem_append.mp hin with h5 | h5
-                · rcases hdone p h5 with h6 | h6
-                  · exact h3 h6
-                  · exact h4 h6
-                · rcases List.mem_cons.mp h5 with h6 | h6
-                  · exact this.1 h6
-                  · exact this.2 h6
+              have hpl : p ∈ parentsL g old := mem_parentsL.mpr ⟨_, hps, h1⟩
+              refine ⟨hpl, ?_, h2⟩
+              intro hin
+              rw [hall] at hin
+              have := htopo'.1 p hpl
+              rcases List.mem_append.mp hin with h5 | h5
+              · rcases hdone p h5 with h6 | h6
+                · exact h3 h6
+                · exact h4 h6
+              · rcases List.mem_cons.mp h5 with h6 | h6
+                · exact this.1 h6
+                · exact this.2 h6
 
 /-- entries and skip records are never removed -/
 theorem planLoop_mono (g : PMap) (gen : Key → Key) (onto : Key) (skip : Bool) :
